@@ -55,6 +55,7 @@ func (c *nsCase) idOfLog(l *raft.Log) uint64 {
 		if id, ok := c.cfgbytes[string(l.Data)]; ok {
 			return id
 		}
+		return 0 // a configuration outside the case's table
 	}
 	return idOf(l.Data)
 }
